@@ -3,6 +3,15 @@
 REFLECT = "Go reflect / runtime semantics as specified in the model (DESIGN.md 3.4)"
 
 PROPS = {
+    "C12": {
+        "gens": [],
+        "lean": "Anko.Props.C12",
+        "streams": [{"name": "envapi", "n_quick": 1500, "n_thorough": 30000}],
+        "trusted": ["the heap-of-scopes model lean/Anko/Model/EnvApi.lean mirrors env/*.go (validated each run: every return value of every call and the full final "
+                    "state of random API histories)"],
+        "assumptions": ["values are opaque data or module references; Addr is modelled in its error behaviour only (values bound through Define are never addressable)",
+                        "DeepCopy is excluded from error_leaves_heap_unchanged (it cannot fail on a heap with valid parent links)"],
+    },
     "C20": {
         "gens": [],
         "lean": "Anko.Props.C20",
@@ -133,6 +142,18 @@ PROPS = {
 
 # Texts for MANIFEST.json (level_claimed.text, level_note, technique, design_ref)
 MANIFEST_TEXT = {
+    "C12": {
+        "text": "Machine-checked proofs (Lean 4) over a heap-of-scopes model of the whole env API: names with '.' are rejected, every failing "
+                "call leaves the heap exactly unchanged (also lifted to arbitrary histories), define/delete/defineType touch only the "
+                "addressed scope, set updates exactly the scope owning the nearest binding (which keeps its name set) or fails without "
+                "creating one, lookup order own table -> external lookup -> parent -> (types) built-in names last, Copy is an independent "
+                "snapshot. Correspondence: random histories of 10-40 calls over all 18 operations on a growing scope tree through the real "
+                "env package and the model (every return value + final state); implementation-side oracles (failing call changes "
+                "nothing, read-only calls change nothing, writes touch one scope, never panics).",
+        "note": "Trusted: Lean kernel; fidelity of the env model (differential). Follows the repaired GetEnvFromPath (fix 437233a).",
+        "technique": "Lean 4 proof (invariants per operation, lifted to histories) + differential history correspondence",
+        "design_ref": "DESIGN.md section 6 (C12)",
+    },
     "C20": {
         "text": "Machine-checked proofs (Lean 4) that every operation of the model - all unary/binary operators, ==/!=, in, switch matching, "
                 "conditions, index/slice/make sizes, the nil test of ??, conversion to Go parameters, callee selection - depends on its "
